@@ -229,6 +229,9 @@ def run(ctx):
             continue
         if np.shape(val) != tuple(shape):
             ctx.violation('shape', 'Derivative returns shape %r for x of shape %r' % (np.shape(val), shape), {'f': fname, 'shape': list(shape), 'method': method, 'n': n})
+        bad = pipe.context_certificate(rec)
+        if bad:
+            ctx.brk('oracle-certificate', 'Derivative on an array: ' + bad, {})
         cs, why = pipe.column_cases(val, info, rec)
         if why:
             skipped[why] = skipped.get(why, 0) + 1
